@@ -63,7 +63,7 @@ def node_evidence(e: ast.expr, f: Func, ncls: set[str], depth: int = 0) -> str |
                     return f"taken from the registry: {norm(v)[:50]}"
                 if isinstance(v, ast.Call) and isinstance(v.func, ast.Attribute) and v.func.attr in ("get", "get_any", "visit", "transform", "find", "pop", "popleft"):
                     r = node_evidence(v.func.value, f, ncls, depth + 1)
-                    if r or v.func.attr in ("get_any", "visit", "transform", "find"):
+                    if r or v.func.attr in ("get_any", "find") or (v.func.attr in ("visit", "transform") and norm(v.func.value) in ("self", "visitor")):
                         return f"result of {norm(v)[:50]}"
                 if isinstance(v, (ast.Attribute, ast.Subscript, ast.Name)):
                     r = node_evidence(v, f, ncls, depth + 1)
@@ -77,8 +77,11 @@ def node_evidence(e: ast.expr, f: Func, ncls: set[str], depth: int = 0) -> str |
     if isinstance(e, ast.Subscript):
         return node_evidence(e.value, f, ncls, depth + 1)
     if isinstance(e, ast.Call):
-        if isinstance(e.func, ast.Attribute) and e.func.attr in ("get_any", "visit", "transform", "find", "duplicate"):
+        if isinstance(e.func, ast.Attribute) and (e.func.attr in ("get_any", "find", "duplicate") or (
+                e.func.attr in ("visit", "transform") and norm(e.func.value) in ("self", "visitor"))):
             return f"result of {norm(e)[:50]}"
+        if isinstance(e.func, ast.Attribute) and e.func.attr == "get" and norm(e.func.value) == "NODE_REGISTRY":
+            return f"taken from the registry: {norm(e)[:50]}"
     return None
 
 
